@@ -1,11 +1,18 @@
-// h_c20: correspondence harness for C20 (tombstones.Intervals.Add).
-// Runs the real Intervals.Add on enumerated + generated inputs, records the observed result
-// (or panic) and writes the cases for Coq.
+// h_c20: correspondence harness for C20 (deletion removes exactly the requested data).
+// Three streams, each with its own case files and correspondence module:
+//   cases_NNN.v   (corr/CorrC20.v)   the real tombstones.Intervals.Add on enumerated + generated
+//                                    inputs (result or panic)                       [this file]
+//   cases_hNNN.v  (corr/CorrC20H.v)  delete-centred histories on a real tsdb.DB     [hist.go]
+//   cases_tNNN.v  (corr/CorrC20T.v)  tombstones.WriteFile / ReadTombstones round trips [tomb.go]
+// Case ids: intervals from 0, histories from 100000, tombstone files from 200000.
 package main
 
 import (
 	"fmt"
 	"math"
+	"os"
+	"strings"
+	"sync"
 
 	"github.com/prometheus/prometheus/tsdb/tombstones"
 
@@ -65,7 +72,7 @@ func canonical(l tombstones.Intervals) bool {
 func main() {
 	f := gallina.ParseFlags()
 	meta := gallina.NewMeta("C20", f.Seed, f.Tier)
-	meta.Rule = "corpus + exhaustive enumeration of canonical interval lists (<=3 intervals) over the boundary domain {MinInt64,MinInt64+1,-2..3,MaxInt64-1,MaxInt64} (quick tier: 8 of these 10 points, lists <=2; thorough: all, lists <=3) x every well-formed new interval over it, plus seeded random canonical and non-canonical lists; non-trivial = the insertion merges with or lands between existing intervals (result is not a plain append to an empty list); distinct by (input,new)"
+	meta.Rule = "THREE STREAMS. (1) intervals: corpus + exhaustive enumeration of canonical interval lists (<=3 intervals) over the boundary domain {MinInt64,MinInt64+1,-2..3,MaxInt64-1,MaxInt64} (quick tier: 8 of these 10 points, lists <=2; thorough: all, lists <=3) x every well-formed new interval over it, plus seeded random canonical and non-canonical lists; non-trivial = the insertion merges with or lands between existing intervals (result is not a plain append to an empty list); distinct by (input,new). (2) histories (ids from 100000): corpus of fixed boundary histories + seeded delete-centred histories on a real tsdb.DB (block range 1000, 1-3 series, OOO window 0 or 100000): build phase over several block ranges, then Deletes with end points drawn from the implementation's current Head.MinTime/MaxTime/minValidTime, block MinTime/MaxTime, next head block boundary, series first/last/any sample (each -1/0/+1) and int64 extremes, framed by full queries and followed in random order by head compaction, OOO compaction, CleanTombstones, restart, appends, further deletes, with a full query after every step; non-trivial = at least one Delete changed the full answer and at least one query came after a Delete; distinct by the printed step list. (3) tombstone files (ids from 200000): corpus + seeded WriteFile/ReadTombstones round trips of real MemTombstones and of ordered readers (repeated refs, overlapping / adjacent / unsorted groups, refs and times at varint and int64 boundaries), one fifth damaged after writing (truncate, bit flip, append, magic, version, crc, 8-byte file); non-trivial = undamaged file with at least one interval"
 	cf := &gallina.CaseFile{Dir: f.Out, Type: "case", PerShard: 4000,
 		Preamble: "From Coq Require Import List ZArith.\nFrom Verif Require Import lib.Int64 model.Intervals corr.CorrC20.\nImport ListNotations.\nOpen Scope Z_scope.\n",
 		Footer:   gallina.StdFooter}
@@ -199,5 +206,116 @@ func main() {
 		emit(l, nv, "")
 	}
 	cf.Flush()
+	if os.Getenv("C20_ONLY") != "" && os.Getenv("C20_ONLY") != "intervals" {
+		// debugging aid: drop the interval cases
+		meta = gallina.NewMeta("C20", f.Seed, f.Tier)
+		for _, p := range []string{"cases_000.v", "cases_001.v", "cases_002.v", "cases_003.v", "cases_004.v", "cases_005.v"} {
+			os.Remove(f.Out + "/" + p)
+		}
+	}
+	if v := os.Getenv("C20_ONLY"); v == "" || v == "history" {
+		historyStream(f, meta)
+	}
+	if v := os.Getenv("C20_ONLY"); v == "" || v == "tombstones" {
+		tombStream(f, meta)
+	}
 	meta.Write(f.Out)
+}
+
+func historyStream(f gallina.Flags, meta *gallina.Meta) {
+	w := &shardWriter{Dir: f.Out, Prefix: "h", Type: "CorrC01.case", PerShard: 32,
+		Preamble: "From Coq Require Import List ZArith.\nFrom Verif Require Import lib.Int64 model.TsdbSpec model.Tsdb corr.CorrC01 corr.CorrC20H.\nImport ListNotations.\nOpen Scope Z_scope.\n"}
+	cp := histCorpus()
+	if v := os.Getenv("C20_HIST"); v != "" { // debugging aid: one generated history
+		var idx int
+		fmt.Sscan(v, &idx)
+		_, _, hd, r := runHistory(f.Out, f.Seed, idx, nil)
+		fmt.Fprintf(os.Stderr, "%+v\n%v\n", hd, r.classes)
+		return
+	}
+	total := len(cp) + f.Count(44, 600)
+	type outcome struct {
+		term, sig string
+		hd        histDesc
+		r         *runner
+	}
+	outs := make([]outcome, total)
+	var wg sync.WaitGroup
+	sem := make(chan struct{}, 8)
+	for k := 0; k < total; k++ {
+		wg.Add(1)
+		sem <- struct{}{}
+		go func(k int) {
+			defer wg.Done()
+			defer func() { <-sem }()
+			var o outcome
+			if k < len(cp) {
+				o.term, o.sig, o.hd, o.r = runHistory(f.Out, f.Seed, 1000000+k, &cp[k])
+			} else {
+				o.term, o.sig, o.hd, o.r = runHistory(f.Out, f.Seed, k-len(cp), nil)
+			}
+			outs[k] = o
+		}(k)
+	}
+	wg.Wait()
+	seen := map[string]bool{}
+	id := 100000
+	for _, o := range outs {
+		if seen[o.sig] {
+			continue
+		}
+		seen[o.sig] = true
+		for _, v := range o.r.goViol {
+			meta.GoViol = append(meta.GoViol, gallina.GoViolation{ID: fmt.Sprint(id), Shape: "harness-" + o.hd.Shape, What: v})
+		}
+		w.Add(strings.Replace(o.term, "@ID@", gallina.Z(int64(id)), 1))
+		meta.Case(id, o.hd)
+		meta.Evaluations++
+		meta.Hit("hist-shape-" + o.hd.Shape)
+		meta.Hit(fmt.Sprintf("hist-series-%d", o.r.n))
+		meta.Hit(fmt.Sprintf("hist-ooo-window-%d", o.r.oooWin))
+		for k, v := range o.r.classes {
+			meta.Dist["hist-"+k] += v
+		}
+		meta.Dist["hist-deletes"] += o.r.deletes
+		meta.Dist["hist-deletes-changing-the-answer"] += o.r.effDel
+		meta.Dist["hist-queries-after-a-delete"] += o.r.checks
+		if o.r.effDel > 0 && o.r.checks > 0 {
+			meta.Nontrivial++
+		}
+		id++
+	}
+	w.Flush()
+}
+
+func tombStream(f gallina.Flags, meta *gallina.Meta) {
+	w := &shardWriter{Dir: f.Out, Prefix: "t", Type: "tcase", PerShard: 500,
+		Preamble: "From Coq Require Import List ZArith Uint63.\nFrom Verif Require Import model.Intervals model.TombFile corr.CorrC20T.\nImport ListNotations.\nOpen Scope uint63_scope.\n"}
+	cp := tombCorpus()
+	id := 200000
+	seen := map[string]bool{}
+	emit := func(term string, d tombDesc, classes map[string]int) {
+		if seen[term] {
+			return
+		}
+		seen[term] = true
+		w.Add(strings.Replace(term, "@ID@", fmt.Sprint(id), 1))
+		meta.Case(id, d)
+		meta.Evaluations++
+		for k, v := range classes {
+			meta.Dist[k] += v
+		}
+		if d.Damage == "" && len(d.In) > 0 {
+			meta.Nontrivial++
+		}
+		id++
+	}
+	for k := range cp {
+		emit(tombCase(f.Out, f.Seed, 1000000+k, &cp[k]))
+	}
+	n := f.Count(300, 6000)
+	for i := 0; i < n; i++ {
+		emit(tombCase(f.Out, f.Seed, i, nil))
+	}
+	w.Flush()
 }
